@@ -46,6 +46,7 @@ var treeShapes = []treeShape{
 	{"root-ignores-sigterm", `trap "" TERM; echo PID:$$; sleep 311 & echo PID:$!; wait; :`, false},
 	{"parent-exits-before-its-child", `echo PID:$$; sleep 311 & echo PID:$!; exit 0`, true},
 	{"parent-exits-child-detached-from-the-pipes", `echo PID:$$; sleep 311 >/dev/null 2>&1 & echo PID:$!; exit 0`, true},
+	{"leader-suspends-itself", `echo PID:$$; sleep 311 & echo PID:$!; kill -STOP $$; wait`, false},
 	{"detached-child-ignores-sigterm", `echo PID:$$; (trap "" TERM; exec sleep 311) >/dev/null 2>&1 & echo PID:$!; wait`, false},
 	{"parent-exits-detached-child-ignores-sigterm", `echo PID:$$; (trap "" TERM; exec sleep 311) >/dev/null 2>&1 & echo PID:$!; exit 0`, true},
 }
